@@ -235,6 +235,7 @@ func vfGap(config int, maxItems int, twoGaps bool) {
 // restorer (e.g. import resolution) before link/decorate/restore.
 func vfGapTree(n dst.Node, maxItems int, twoGaps bool, setup func(fd *fileDecorator, r *FileRestorer)) {
 	r0 := vfRestorerMid()
+	vfAssume(r0.cursor != r0.cursorAtNewLine) // r0 only produces the positioned ast; its freshness is irrelevant
 	an := r0.restoreNode(n, "", "", "", false)
 	fd := NewDecorator(nil).newFileDecorator()
 	r := vfRestorerMid()
@@ -378,7 +379,7 @@ func vfC01Gap(config int) {
 	if vfTier() == 0 && config != 0 && config != 1 && config != 3 {
 		max = 1
 	}
-	vfGap(config, max, vfTier() > 0)
+	vfGap(config, max, vfTier() > 0 && config <= 1)
 }
 func VerifC01Gap0() { vfC01Gap(0) }
 func VerifC01Gap1() { vfC01Gap(1) }
@@ -397,9 +398,9 @@ func vfC03Gap(config int) {
 	vfCanonical, vfCheckLines = false, false
 	max := 1 + vfTier()
 	if config == 0 {
-		max = 2 + vfTier()
+		max = 2
 	}
-	vfGap(config, max, vfTier() > 0)
+	vfGap(config, max, false)
 }
 func VerifC03Gap0() { vfC03Gap(0) }
 func VerifC03Gap1() { vfC03Gap(1) }
@@ -473,3 +474,7 @@ func vfC15Gap(config int) {
 func VerifC15Gap0() { vfC15Gap(0) }
 func VerifC15Gap3() { vfC15Gap(3) }
 func VerifC15Gap6() { vfC15Gap(6) }
+
+// VerifC08QualifiedPoints: the decoration points of an expanded qualified identifier (same harness as
+// VerifC04Qualified, run under C08 as well: "expand back with every interior comment intact").
+func VerifC08QualifiedPoints() { VerifC04Qualified() }
